@@ -187,6 +187,15 @@ func (r *LinuxResources) Copy() *LinuxResources {
 			Limit: r.Pids.Limit,
 		}
 	}
+	for _, d := range r.Devices {
+		o.Devices = append(o.Devices, &LinuxDeviceCgroup{
+			Allow:  d.Allow,
+			Type:   d.Type,
+			Major:  Int64(d.GetMajor()),
+			Minor:  Int64(d.GetMinor()),
+			Access: d.Access,
+		})
+	}
 	o.BlockioClass = String(r.BlockioClass)
 	o.RdtClass = String(r.RdtClass)
 
